@@ -4,34 +4,40 @@
    token re-copies the parent tokens into its key, so parent deques hold an arrival-dependent number of copies of
    one token.  The invariant carries those counts existentially. *)
 From Coq Require Import List Ascii Bool NArith Arith Lia Permutation.
-From SF Require Import Base.Str Tags.Model Comb.Model Comb.Proofs Comb.Flat Comb.Bcast Comb.GBcast.
+From SF Require Import Base.Str Tags.Model Comb.Model Comb.Proofs Comb.Flat Comb.GBcast.
 Import ListNotations.
 Local Open Scope string_scope. Local Open Scope list_scope.
 
 (* a port -> deque map in which the deque of the i-th element holds cs_i copies of it *)
-Definition rep (l : list garv) (cs : list nat) : pvals :=
-  map (fun yc => (fst (fst yc), repeat (snd (fst yc)) (snd yc))) (List.combine l cs).
+Fixpoint rep (l : list garv) (cs : list nat) : pvals :=
+  match l, cs with
+  | y :: l', c :: cs' => (fst y, repeat (snd y) c) :: rep l' cs'
+  | _, _ => []
+  end.
 (* one more copy for the elements whose port is in qs *)
-Definition bump (qs : list string) (l : list garv) (cs : list nat) : list nat :=
-  map (fun yc => if existsb (String.eqb (fst (fst yc))) qs then S (snd yc) else snd yc) (List.combine l cs).
+Fixpoint bump (qs : list string) (l : list garv) (cs : list nat) : list nat :=
+  match l, cs with
+  | y :: l', c :: cs' => (if existsb (String.eqb (fst y)) qs then S c else c) :: bump qs l' cs'
+  | _, _ => []
+  end.
 
 Lemma rep_keys : forall l cs, length cs = length l -> map fst (rep l cs) = map fst l.
 Proof.
-  induction l as [|y l IH]; intros [|c cs] H; simpl in *; try discriminate; auto.
-  f_equal. apply IH. lia.
+  induction l as [|y l IH]; intros [|c cs] H; simpl in *; try discriminate; auto; try (f_equal; apply IH; lia).
 Qed.
-Lemma rep_length l cs : length cs = length l -> length (rep l cs) = length l.
-Proof. intros H. unfold rep. rewrite map_length, combine_length. lia. Qed.
+Lemma rep_length : forall l cs, length cs = length l -> length (rep l cs) = length l.
+Proof. induction l as [|y l IH]; intros [|c cs] H; simpl in *; try discriminate; auto; try (f_equal; apply IH; lia). Qed.
 Lemma rep_snoc : forall l cs x c, length cs = length l ->
   rep (l ++ [x]) (cs ++ [c]) = rep l cs ++ [(fst x, repeat (snd x) c)].
 Proof.
-  induction l as [|y l IH]; intros [|c0 cs] x c H; simpl in *; try discriminate; auto.
-  unfold rep in *. simpl. f_equal. apply IH. lia.
+  induction l as [|y l IH]; intros [|c0 cs] x c H; simpl in *; try discriminate; auto; try (f_equal; apply IH; lia).
 Qed.
-Lemma rep_ones l : rep l (repeat 1 (length l)) = gones l.
-Proof. induction l as [|y l IH]; simpl; auto. unfold rep in *. simpl. now rewrite IH. Qed.
-Lemma bump_length qs l cs : length cs = length l -> length (bump qs l cs) = length l.
-Proof. intros H. unfold bump. rewrite map_length, combine_length. lia. Qed.
+Lemma rep_ones : forall l, rep l (repeat 1 (length l)) = gones l.
+Proof. induction l as [|y l IH]; simpl; auto. now rewrite IH. Qed.
+Lemma bump_length qs : forall l cs, length cs = length l -> length (bump qs l cs) = length l.
+Proof. induction l as [|y l IH]; intros [|c cs] H; simpl in *; try discriminate; auto; try (f_equal; apply IH; lia). Qed.
+Lemma bump_nil : forall l cs, length cs = length l -> bump [] l cs = cs.
+Proof. induction l as [|y l IH]; intros [|c cs] H; simpl in *; try discriminate; auto; try (f_equal; apply IH; lia). Qed.
 
 Lemma addp_new l cs (x : garv) :
   ~ In (fst x) (map fst l) -> length cs = length l ->
@@ -41,36 +47,38 @@ Proof.
   now rewrite rep_snoc.
 Qed.
 
+(* bumping ports that do not occur changes nothing *)
+Lemma bump_absent qs : forall l cs, (forall y, In y l -> ~ In (fst y) qs) -> length cs = length l -> bump qs l cs = cs.
+Proof.
+  induction l as [|y l IH]; intros [|c cs] H Hl; simpl in *; try discriminate; auto.
+  assert (existsb (String.eqb (fst y)) qs = false) as ->.
+  { destruct (existsb (String.eqb (fst y)) qs) eqn:E; auto. apply existsb_eqb_in in E. exfalso. eapply H; eauto. }
+  f_equal. apply IH; auto; lia.
+Qed.
+
 Lemma addp_bump : forall l cs (y : garv),
   NoDup (map fst l) -> In y l -> length cs = length l ->
   addp (snd y) (fst y) (rep l cs) = rep l (bump [fst y] l cs).
 Proof.
   induction l as [|z l IH]; intros [|c cs] y ND Hy Hl; simpl in *; try discriminate; try tauto.
-  inversion ND; subst. unfold addp. simpl. unfold rep, bump. simpl. rewrite orb_false_r.
+  inversion ND; subst. unfold addp. simpl. rewrite orb_false_r.
   destruct Hy as [->|Hy].
-  - rewrite !String.eqb_refl. simpl. f_equal.
-    + f_equal. now rewrite repeat_cons.
-    + f_equal. apply map_ext_in. intros [w cw] Hw. simpl. apply in_combine_l in Hw.
-      destruct (String.eqb_spec (fst w) (fst y)); auto. exfalso. apply H1. rewrite <- e. now apply in_map.
+  - rewrite !String.eqb_refl. simpl. rewrite <- repeat_cons.
+    rewrite bump_absent; [reflexivity| |lia]. intros w Hw [E|[]]. apply H1. rewrite E. now apply in_map.
   - assert (Hne : fst y <> fst z) by (intros E; apply H1; rewrite <- E; now apply in_map).
     destruct (String.eqb_spec (fst y) (fst z)); [congruence|].
     destruct (String.eqb_spec (fst z) (fst y)); [congruence|]. f_equal.
-    assert (Hl' : length cs = length l) by lia.
-    pose proof (IH cs y H2 Hy Hl') as E. unfold addp, rep, bump in E. simpl in E.
-    assert (Eb : forall (w : garv * nat), (if existsb (String.eqb (fst (fst w))) [fst y] then S (snd w) else snd w) =
-                  (if String.eqb (fst (fst w)) (fst y) || false then S (snd w) else snd w)) by reflexivity.
-    exact E.
+    apply (IH cs y H2 Hy). lia.
 Qed.
 
-Lemma bump_cons q qs l cs : ~ In q qs -> length cs = length l ->
+Lemma bump_cons q qs : ~ In q qs -> forall l cs, length cs = length l ->
   bump qs l (bump [q] l cs) = bump (q :: qs) l cs.
 Proof.
-  intros Hq. revert cs. induction l as [|z l IH]; intros [|c cs] Hl; simpl in *; try discriminate; auto.
-  unfold bump in *. simpl. rewrite orb_false_r. f_equal.
+  intros Hq. induction l as [|z l IH]; intros [|c cs] Hl; simpl in *; try discriminate; auto.
+  rewrite orb_false_r. f_equal.
   - destruct (String.eqb_spec (fst z) q); simpl; auto.
     subst q. destruct (existsb (String.eqb (fst z)) qs) eqn:E; auto. apply existsb_eqb_in in E. tauto.
-  - assert (Hl' : length cs = length l) by lia. specialize (IH cs Hl'). simpl in IH.
-    rewrite <- IH. f_equal. f_equal. apply map_ext. intros w. now rewrite orb_false_r.
+  - apply IH. lia.
 Qed.
 
 Lemma copy_bump : forall (ps : list garv) l cs,
@@ -78,9 +86,7 @@ Lemma copy_bump : forall (ps : list garv) l cs,
   copy_ports dot_add (gones ps) (rep l cs) = inl (rep l (bump (map fst ps) l cs)).
 Proof.
   induction ps as [|y ps IH]; intros l cs ND NDp Hin Hl; simpl.
-  - f_equal. unfold bump, rep. f_equal. rewrite <- (map_id (List.combine l cs)) at 1.
-    rewrite <- (combine_split l cs) at 1 by auto.
-    clear. revert cs. induction l as [|z l IH]; intros [|c cs]; simpl; auto. f_equal. apply IH.
+  - now rewrite bump_nil.
   - fold (addp (snd y) (fst y) (rep l cs)). inversion NDp; subst.
     rewrite addp_bump; auto; [|apply Hin; simpl; auto].
     rewrite IH; auto.
@@ -88,3 +94,656 @@ Proof.
     + intros z Hz. apply Hin. simpl. auto.
     + now apply bump_length.
 Qed.
+
+(* ---------- popping and minimum length of such maps ---------- *)
+Lemma rev_repeat {A} (a : A) : forall m, rev (repeat a m) = repeat a m.
+Proof. induction m; simpl; auto. rewrite IHm. symmetry. apply repeat_cons. Qed.
+
+Lemma pop_all_rep : forall l cs,
+  Forall (fun c => 1 <= c) cs -> length cs = length l ->
+  pop_all (rep l cs) = Some (rep l (map pred cs), l).
+Proof.
+  induction l as [|[p e] l IH]; intros [|c cs] F Hl; simpl in *; try discriminate; auto.
+  inversion F; subst. destruct c as [|c]; [lia|].
+  rewrite rev_repeat. simpl. rewrite rev_repeat. rewrite IH; auto; lia.
+Qed.
+
+Definition minl (cs : list nat) : nat := match cs with [] => 0 | x :: r => fold_left Nat.min r x end.
+Lemma min_len_rep : forall l cs, length cs = length l -> min_len (rep l cs) = minl cs.
+Proof.
+  intros l cs Hl. unfold min_len, minl.
+  assert (E : map (fun pd : string * list elem => length (snd pd)) (rep l cs) = cs).
+  { revert cs Hl. induction l as [|y l IH]; intros [|c cs] Hl; simpl in *; try discriminate; auto.
+    rewrite repeat_length. f_equal. apply IH. lia. }
+  now rewrite E.
+Qed.
+Lemma fold_min_le : forall r x, fold_left Nat.min r x <= x /\ forall c, In c r -> fold_left Nat.min r x <= c.
+Proof.
+  induction r as [|y r IH]; intros x; simpl; [split; [lia|tauto]|].
+  destruct (IH (Nat.min x y)) as [A B]. split; [lia|]. intros c [<-|Hc]; [lia|auto].
+Qed.
+Lemma fold_min_ge m : forall r x, m <= x -> (forall c, In c r -> m <= c) -> m <= fold_left Nat.min r x.
+Proof.
+  induction r as [|y r IH]; intros x Hx H; simpl; auto. apply IH; [|intros; apply H; simpl; auto].
+  specialize (H y (or_introl eq_refl)). lia.
+Qed.
+Lemma minl_zero cs : In 0 cs -> minl cs = 0.
+Proof.
+  destruct cs as [|x r]; simpl; [tauto|]. intros [->|H].
+  - destruct (fold_min_le r 0). lia.
+  - destruct (fold_min_le r x) as [_ B]. specialize (B 0 H). lia.
+Qed.
+Lemma minl_one cs : Forall (fun c => 1 <= c) cs -> In 1 cs -> minl cs = 1.
+Proof.
+  destruct cs as [|x r]; simpl; [tauto|]. intros F H. inversion F; subst.
+  assert (1 <= fold_left Nat.min r x) by (apply fold_min_ge; auto; rewrite Forall_forall in H3; auto).
+  destruct (fold_min_le r x) as [A B]. destruct H as [->|H]; [lia|]. specialize (B 1 H). lia.
+Qed.
+
+Definition haszero (cs : list nat) : bool := existsb (Nat.eqb 0) cs.
+Lemma haszero_in cs : haszero cs = true <-> In 0 cs.
+Proof.
+  unfold haszero. rewrite existsb_exists. split.
+  - intros (c & Hc & E). apply Nat.eqb_eq in E. now subst.
+  - intros H. exists 0. split; auto.
+Qed.
+
+(* ---------- the scan ---------- *)
+Section Scan2.
+Variable n : nat.
+Variable ts : list string.
+Variable L : string -> list garv.
+Hypothesis NDts : NoDup ts.
+
+Definition stv (CS : string -> list nat) : tvals := mk (fun k => rep (L k) (CS k)) ts.
+Definition fires2 (CS : string -> list nat) (k : string) : bool :=
+  Nat.eqb (length (L k)) n && negb (haszero (CS k)).
+Definition after (CS : string -> list nat) (ks : list string) : string -> list nat :=
+  fun k => if existsb (String.eqb k) ks && fires2 CS k then map pred (CS k) else CS k.
+
+Lemma scan2 : forall ks CS,
+  NoDup ks -> incl ks ts ->
+  (forall k, In k ks -> length (CS k) = length (L k) /\
+                        (fires2 CS k = true -> Forall (fun c => 1 <= c) (CS k) /\ In 1 (CS k))) ->
+  dot_scan n ks (stv CS) =
+  (stv (after CS ks), flat_map (fun k => if fires2 CS k then [gcombo (L k)] else []) ks, None).
+Proof.
+  induction ks as [|k ks IH]; intros CS ND Hin Hok; simpl.
+  - reflexivity.
+  - inversion ND; subst. assert (Hk : In k ts) by (apply Hin; simpl; auto).
+    assert (Hin' : incl ks ts) by (intros q Hq; apply Hin; simpl; auto).
+    destruct (Hok k (or_introl eq_refl)) as [Lk Fk].
+    unfold stv at 1. rewrite lookup_mk by exact Hk. rewrite rep_length by exact Lk.
+    assert (Rest : forall CS', (forall q, In q ks -> CS' q = CS q) ->
+              forall q, In q ks -> length (CS' q) = length (L q) /\
+                (fires2 CS' q = true -> Forall (fun c => 1 <= c) (CS' q) /\ In 1 (CS' q))).
+    { intros CS' E q Hq. unfold fires2. rewrite (E q Hq). apply (Hok q). simpl. auto. }
+    unfold fires2 at 1. destruct (Nat.eqb_spec (length (L k)) n) as [En|En]; simpl.
+    + rewrite min_len_rep by exact Lk. destruct (haszero (CS k)) eqn:Hz; simpl.
+      * apply haszero_in in Hz. rewrite minl_zero by exact Hz. simpl.
+        fold (stv CS). rewrite IH; auto; try (apply Rest; auto).
+        f_equal. f_equal. unfold stv. apply mk_ext. intros q _. unfold after. simpl.
+        destruct (String.eqb_spec q k); simpl; auto. subst q. unfold fires2.
+        assert (Z : haszero (CS k) = true) by now apply haszero_in. rewrite Z. simpl. now rewrite !andb_false_r.
+      * assert (F2 : fires2 CS k = true).
+        { unfold fires2. rewrite Hz. destruct (Nat.eqb_spec (length (L k)) n); [reflexivity|congruence]. }
+        destruct (Fk F2) as [Fa I1]. rewrite minl_one by auto. simpl.
+        unfold stv at 1 2. rewrite lookup_mk by exact Hk. rewrite pop_all_rep by auto. simpl.
+        rewrite assoc_set_mk by auto.
+        set (CS2 := fun q => if String.eqb q k then map pred (CS k) else CS q).
+        assert (E2 : mk (upd (fun k0 => rep (L k0) (CS k0)) k (rep (L k) (map pred (CS k)))) ts = stv CS2).
+        { unfold stv. apply mk_ext. intros q _. unfold upd, CS2. destruct (String.eqb_spec q k); auto. now subst. }
+        rewrite E2, IH; auto.
+        -- f_equal. f_equal.
+           ++ unfold stv. apply mk_ext. intros q _. unfold after, CS2. simpl.
+              destruct (String.eqb_spec q k); simpl.
+              ** subst q. rewrite F2.
+                 assert (existsb (String.eqb k) ks = false) as ->.
+                 { destruct (existsb (String.eqb k) ks) eqn:E; auto. apply existsb_eqb_in in E. tauto. }
+                 reflexivity.
+              ** unfold fires2. destruct (String.eqb_spec q k); [congruence|]. reflexivity.
+           ++ apply f_equal2; [reflexivity|]. apply flat_map_ext_in'. intros q Hq. unfold fires2, CS2.
+              destruct (String.eqb_spec q k); auto. subst. tauto.
+        -- apply Rest. intros q Hq. unfold CS2. destruct (String.eqb_spec q k); auto. subst. tauto.
+    + fold (stv CS). rewrite IH; auto; try (apply Rest; auto).
+      f_equal. f_equal. unfold stv. apply mk_ext. intros q _. unfold after. simpl.
+      destruct (String.eqb_spec q k); simpl; auto. subst q. unfold fires2.
+      destruct (Nat.eqb_spec (length (L k)) n); [congruence|]. simpl. now rewrite andb_false_r.
+Qed.
+End Scan2.
+
+(* ---------- several scattered ports ---------- *)
+Section B2.
+Variable items : list string.
+Variable r : string.
+Variable DP : list string.           (* the scattered ports *)
+Let n := length items.
+
+Definition isdeep (x : garv) : bool := existsb (String.eqb (fst x)) DP.
+Definition wfb2 (l : list garv) : Prop :=
+  NoDup items /\ DP <> [] /\ incl DP items /\ (forall x, In x l -> In (fst x) items) /\ NoDup (map gakey l) /\
+  (forall x, In x l -> if isdeep x then deepc r (gatag x) else gatag x = r) /\
+  (forall x y, In x l -> In y l -> isdeep x = true -> isdeep y = true -> gatag x <> gatag y ->
+               is_parent_tag_s (gatag x) (gatag y) = false).
+
+Lemma wfb2_prefix a b : wfb2 (a ++ b) -> wfb2 a.
+Proof.
+  intros (A & B & C & D & E & F & G). split; auto. split; auto. split; auto. split; [|split; [|split]].
+  - intros x Hx. apply D. rewrite in_app_iff. auto.
+  - rewrite map_app in E. now apply NoDup_app_l in E.
+  - intros x Hx. apply F. rewrite in_app_iff. auto.
+  - intros x y Hx Hy. apply G; rewrite in_app_iff; auto.
+Qed.
+
+Lemma sod l x : wfb2 l -> In x l -> (isdeep x = true /\ deepc r (gatag x)) \/ (isdeep x = false /\ gatag x = r).
+Proof. intros (_ & _ & _ & _ & _ & F & _) Hx. specialize (F x Hx). destruct (isdeep x); auto. Qed.
+
+Lemma isdeep_port x y : fst x = fst y -> isdeep x = isdeep y.
+Proof. unfold isdeep. now intros ->. Qed.
+
+Lemma ports_nodup k l : wfb2 l -> NoDup (map fst (bsel r k l)).
+Proof.
+  intros W. pose proof W as (_ & _ & _ & _ & NDk & _ & _).
+  assert (NDl : NoDup (bsel r k l)) by (unfold bsel; apply NoDup_filter; eapply NoDup_map_inv; exact NDk).
+  assert (Inj : forall a b, In a (bsel r k l) -> In b (bsel r k l) -> fst a = fst b -> a = b).
+  { intros a b Ha Hb E. unfold bsel in Ha, Hb. apply filter_In in Ha. apply filter_In in Hb.
+    destruct Ha as [Ha Ca]. destruct Hb as [Hb Cb].
+    assert (K : gakey a = gakey b).
+    { unfold gakey. rewrite E. f_equal. pose proof (isdeep_port a b E) as Ed.
+      destruct (sod l a W Ha) as [[Pa (Na & _)]|[Pa Ta]];
+      destruct (sod l b W Hb) as [[Pb (Nb & _)]|[Pb Tb]]; try congruence.
+      unfold counts in Ca, Cb. apply orb_true_iff in Ca. apply orb_true_iff in Cb.
+      destruct Ca as [Ca|Ca]; apply String.eqb_eq in Ca; [congruence|].
+      destruct Cb as [Cb|Cb]; apply String.eqb_eq in Cb; congruence. }
+    clear -NDk Ha Hb K. induction l as [|y l IH]; simpl in *; [tauto|]. inversion NDk; subst.
+    destruct Ha as [<-|Ha]; destruct Hb as [<-|Hb]; auto.
+    - exfalso. apply H1. rewrite K. now apply in_map.
+    - exfalso. apply H1. rewrite <- K. now apply in_map. }
+  clear -NDl Inj. induction (bsel r k l) as [|y m IH]; simpl; [constructor|]. inversion NDl; subst.
+  constructor.
+  - intros Hin. apply in_map_iff in Hin. destruct Hin as (z & Ez & Hz).
+    assert (z = y) by (apply Inj; simpl; auto). subst. tauto.
+  - apply IH; auto. intros a b Ha Hb. apply Inj; simpl; auto.
+Qed.
+
+Lemma ports_incl k l : wfb2 l -> incl (map fst (bsel r k l)) items.
+Proof.
+  intros (_ & _ & _ & C & _) q Hq. apply in_map_iff in Hq. destruct Hq as (y & <- & Hy).
+  apply filter_In in Hy. apply C. tauto.
+Qed.
+
+Lemma lt_counts k l x : wfb2 (l ++ [x]) -> counts r k x = true -> length (bsel r k l) < n.
+Proof.
+  intros W Cx. pose proof (ports_nodup k _ W) as ND. pose proof (ports_incl k _ W) as I.
+  rewrite bsel_snoc, Cx, map_app in *. simpl in *.
+  pose proof (NoDup_incl_length ND I) as Le. rewrite app_length, map_length in Le. simpl in Le.
+  unfold n. rewrite Nat.add_1_r in Le. exact Le.
+Qed.
+
+Lemma bsel_le k l : wfb2 l -> length (bsel r k l) <= n.
+Proof.
+  intros W. pose proof (NoDup_incl_length (ports_nodup k _ W) (ports_incl k _ W)) as Le.
+  now rewrite map_length in Le.
+Qed.
+
+Lemma parent_not_deep l y : wfb2 l -> In y (bsel r r l) -> isdeep y = false.
+Proof.
+  intros W Hy. apply filter_In in Hy. destruct Hy as [Hy Cy].
+  destruct (sod l y W Hy) as [[_ (Ny & _)]|[Py _]]; auto.
+  unfold counts in Cy. rewrite orb_diag in Cy. apply String.eqb_eq in Cy. congruence.
+Qed.
+
+Lemma r_lt l : wfb2 l -> length (bsel r r l) < n.
+Proof.
+  intros W. pose proof (ports_nodup r _ W) as ND. pose proof (ports_incl r _ W) as I.
+  pose proof W as (_ & Hne & Hdp & _). destruct DP as [|dp DP'] eqn:EDP; [congruence|].
+  assert (Ndp : ~ In dp (map fst (bsel r r l))).
+  { intros Hin. apply in_map_iff in Hin. destruct Hin as (y & Ey & Hy).
+    pose proof (parent_not_deep l y W Hy) as Pd. unfold isdeep in Pd. rewrite EDP in Pd. simpl in Pd.
+    rewrite Ey, String.eqb_refl in Pd. discriminate. }
+  assert (ND2 : NoDup (dp :: map fst (bsel r r l))) by (constructor; auto).
+  assert (I2 : incl (dp :: map fst (bsel r r l)) items) by (intros q [<-|Hq]; auto; apply Hdp; simpl; auto).
+  pose proof (NoDup_incl_length ND2 I2) as Le. cbn [length] in Le. rewrite map_length in Le. exact Le.
+Qed.
+
+Lemma complete_has_deep k l : wfb2 l -> length (bsel r k l) = n -> exists y, In y (bsel r k l) /\ isdeep y = true.
+Proof.
+  intros W En. pose proof (ports_nodup k _ W) as ND. pose proof (ports_incl k _ W) as I.
+  pose proof W as (_ & Hne & Hdp & _). destruct DP as [|dp DP'] eqn:EDP; [congruence|].
+  assert (I2 : incl items (map fst (bsel r k l))).
+  { apply NoDup_length_incl; [exact ND| |exact I]. rewrite map_length. apply Nat.eq_le_incl. symmetry. exact En. }
+  assert (Hin : In dp (map fst (bsel r k l))) by (apply I2, Hdp; simpl; auto).
+  apply in_map_iff in Hin. destruct Hin as (y & Ey & Hy). exists y. split; auto.
+  unfold isdeep. rewrite EDP. simpl. now rewrite Ey, String.eqb_refl.
+Qed.
+
+(* ---------- counts of copies: deep elements exactly one copy ---------- *)
+Fixpoint deep1 (l : list garv) (cs : list nat) : Prop :=
+  match l, cs with
+  | y :: l', c :: cs' => (isdeep y = true -> c = 1) /\ deep1 l' cs'
+  | _, _ => True
+  end.
+Lemma deep1_snoc : forall l cs x c, length cs = length l ->
+  deep1 l cs -> (isdeep x = true -> c = 1) -> deep1 (l ++ [x]) (cs ++ [c]).
+Proof.
+  induction l as [|y l IH]; intros [|c0 cs] x c Hl D Hx; simpl in *; try discriminate; auto.
+  destruct D as [D1 D2]. split; auto.
+Qed.
+Lemma deep1_bump qs : forall l cs,
+  (forall y, In y l -> In (fst y) qs -> isdeep y = false) -> deep1 l cs -> deep1 l (bump qs l cs).
+Proof.
+  induction l as [|y l IH]; intros [|c cs] H D; simpl in *; auto.
+  destruct D as [D1 D2]. split; [|apply IH; auto].
+  intros Hd. destruct (existsb (String.eqb (fst y)) qs) eqn:E; auto.
+  apply existsb_eqb_in in E. rewrite (H y (or_introl eq_refl) E) in Hd. discriminate.
+Qed.
+Lemma deep1_ones : forall l, deep1 l (repeat 1 (length l)).
+Proof. induction l; simpl; auto. Qed.
+Lemma Forall_bump qs : forall l cs, Forall (fun c => 1 <= c) cs -> Forall (fun c => 1 <= c) (bump qs l cs).
+Proof.
+  induction l as [|y l IH]; intros [|c cs] F; simpl; auto. inversion F; subst. constructor; auto.
+  destruct (existsb (String.eqb (fst y)) qs); lia.
+Qed.
+Lemma deep1_in1 : forall l cs y, length cs = length l -> deep1 l cs -> In y l -> isdeep y = true -> In 1 cs.
+Proof.
+  induction l as [|z l IH]; intros [|c cs] y Hl D Hy Hd; simpl in *; try discriminate; try tauto.
+  destruct D as [D1 D2]. destruct Hy as [->|Hy]; [left; auto|right; eapply IH; eauto].
+Qed.
+Lemma Forall_ge1_no0 cs : Forall (fun c => 1 <= c) cs -> ~ In 0 cs.
+Proof. intros F H. rewrite Forall_forall in F. specialize (F 0 H). lia. Qed.
+Lemma in0_pred cs : In 1 cs -> In 0 (map pred cs).
+Proof. intros H. apply in_map_iff. exists 1. auto. Qed.
+
+(* ---------- state and invariant ---------- *)
+Definition Lk (arrived : list garv) (k : string) : list garv := bsel r k arrived.
+Definition stA (arrived : list garv) (CS : string -> list nat) : tvals :=
+  mk (fun k => rep (Lk arrived k) (CS k)) (gtags arrived).
+Definition Inv (arrived : list garv) (CS : string -> list nat) : Prop :=
+  (forall k, ~ In k (gtags arrived) -> CS k = []) /\
+  (forall k, In k (gtags arrived) -> length (CS k) = length (Lk arrived k)) /\
+  (forall k, In k (gtags arrived) -> (In 0 (CS k) <-> length (Lk arrived k) = n)) /\
+  (forall k, In k (gtags arrived) -> ~ In 0 (CS k) ->
+             Forall (fun c => 1 <= c) (CS k) /\ deep1 (Lk arrived k) (CS k)) /\
+  (In r (gtags arrived) -> CS r = repeat 1 (length (Lk arrived r))).
+
+Lemma rep_nil_r l : rep l [] = [].
+Proof. destruct l; reflexivity. Qed.
+
+Lemma lookup_stA arrived CS k : Inv arrived CS ->
+  match lookup k (stA arrived CS) with Some pv => pv | None => [] end = rep (Lk arrived k) (CS k).
+Proof.
+  intros (I0 & _). unfold stA. destruct (in_dec string_dec k (gtags arrived)) as [i|ni].
+  - now rewrite lookup_mk.
+  - rewrite lookup_notin by now rewrite mk_keys. now rewrite (I0 k ni), rep_nil_r.
+Qed.
+
+Section Step2.
+Variables (arrived : list garv) (x : garv) (CS : string -> list nat).
+Hypothesis W : wfb2 (arrived ++ [x]).
+Hypothesis HI : Inv arrived CS.
+Let L := Lk arrived.
+Let L' := Lk (arrived ++ [x]).
+Let ts := gtags arrived.
+Let ts' := gtags (arrived ++ [x]).
+
+Lemma W0' : wfb2 arrived.
+Proof. eapply wfb2_prefix; exact W. Qed.
+
+Lemma cnt_facts k : counts r k x = true ->
+  length (L k) < n /\ ~ In (fst x) (map fst (L k)) /\ L' k = L k ++ [x].
+Proof.
+  intros C. split; [|split].
+  - apply (lt_counts k _ _ W C).
+  - pose proof (ports_nodup k _ W) as ND. rewrite bsel_snoc, C, map_app in ND. simpl in ND.
+    apply NoDup_remove_2 in ND. now rewrite app_nil_r in ND.
+  - unfold L', L, Lk. now rewrite bsel_snoc, C.
+Qed.
+Lemma nocnt k : counts r k x = false -> L' k = L k.
+Proof. intros C. unfold L', L, Lk. now rewrite bsel_snoc, C, app_nil_r. Qed.
+
+Lemma no0_counts k : In k ts -> counts r k x = true -> ~ In 0 (CS k).
+Proof.
+  intros Hk C H0. destruct HI as (_ & _ & I2 & _). apply (I2 k Hk) in H0.
+  destruct (cnt_facts k C) as (Lt & _). fold (L k) in H0. rewrite H0 in Lt. exact (Nat.lt_irrefl _ Lt).
+Qed.
+
+(* the counts after the token has been added (before the scan) *)
+Definition CS1 (k : string) : list nat :=
+  if counts r k x then
+    (if isdeep x
+     then (if existsb (String.eqb k) ts then bump (map fst (L r)) (L k) (CS k) else repeat 1 (length (L r)))
+     else CS k) ++ [1]
+  else CS k.
+
+Lemma mid_parent : isdeep x = false -> gatag x = r ->
+  add_to_list dot_add 0 true (snd x) (fst x) (stA arrived CS) = inl (mk (fun k => rep (L' k) (CS1 k)) ts').
+Proof.
+  intros Dx Tx. set (p := fst x). set (e := snd x).
+  destruct (gtags_spec arrived) as [NDt Mt]. fold ts in NDt, Mt.
+  pose proof HI as (I0 & I1 & _).
+  assert (Call : forall k, counts r k x = true) by (intros k; unfold counts; now rewrite Tx, String.eqb_refl).
+  unfold add_to_list. change (elem_tag e) with (gatag x). rewrite Tx.
+  unfold stA. fold L ts. rewrite mk_keys.
+  set (G := fun k => rep (L k) (CS k)).
+  rewrite (propagate_all e p r ts NDt ts G NDt (fun q Hq => Hq)).
+  2:{ intros k Hk. apply Mt in Hk. apply in_map_iff in Hk. destruct Hk as (y & Ey & Hy).
+      destruct (sod _ y W0' Hy) as [[_ (_ & Pk & _)]|[_ Ty]]; [right|left]; congruence. }
+  set (G1 := fun k => if existsb (String.eqb k) ts && negb (String.eqb k r) then addp e p (G k) else G k).
+  assert (Cur : match lookup r (mk G1 ts) with Some pv => pv | None => [] end = G r).
+  { destruct (in_dec string_dec r ts) as [i|ni].
+    - rewrite lookup_mk by exact i. unfold G1. rewrite String.eqb_refl. simpl. now rewrite andb_false_r.
+    - rewrite lookup_notin by now rewrite mk_keys. unfold G. now rewrite (I0 r ni), rep_nil_r. }
+  rewrite Cur. unfold dot_add. fold (addp e p (G r)).
+  rewrite assoc_set_mk_any by exact NDt. unfold ts'. rewrite gtags_snoc, Tx. fold ts.
+  f_equal. apply mk_ext. intros k Hk. unfold upd.
+  destruct (cnt_facts k (Call k)) as (Lt & Pk & Lk').
+  assert (A : addp e p (G k) = rep (L' k) (CS1 k)).
+  { unfold G, CS1. rewrite (Call k), Dx, Lk'. unfold e, p.
+    destruct (in_dec string_dec k ts) as [i|ni].
+    - apply addp_new; auto.
+    - rewrite (I0 k ni), rep_nil_r. simpl.
+      assert (Ek : k = r /\ ~ In r ts).
+      { unfold add_tag in Hk. destruct (existsb (String.eqb r) ts) eqn:Er; [tauto|].
+        apply in_app_iff in Hk. destruct Hk as [?|[<-|[]]]; [tauto|]. split; auto. }
+      destruct Ek as [-> Nr].
+      assert (E : L r = []) by (unfold L, Lk; now apply bsel_absent).
+      rewrite E. reflexivity. }
+  destruct (String.eqb_spec k r); [subst k; exact A|].
+  unfold G1. assert (In k ts) as Hkts.
+  { unfold add_tag in Hk. destruct (existsb (String.eqb r) ts); auto. apply in_app_iff in Hk.
+    destruct Hk as [?|[?|[]]]; auto. congruence. }
+  apply existsb_eqb_in in Hkts. rewrite Hkts. destruct (String.eqb_spec k r); [congruence|]. exact A.
+Qed.
+
+Lemma mid_deep : isdeep x = true -> deepc r (gatag x) ->
+  add_to_list dot_add 0 true (snd x) (fst x) (stA arrived CS) = inl (mk (fun k => rep (L' k) (CS1 k)) ts').
+Proof.
+  intros Dx (Gne & Gpar & Gnot). set (g := gatag x) in *. set (e := snd x).
+  destruct (gtags_spec arrived) as [NDt Mt]. fold ts in NDt, Mt.
+  pose proof HI as (I0 & I1 & I2 & I3 & I4).
+  pose proof W as (_ & _ & _ & _ & NDk & _ & Hun).
+  assert (Ix : In x (arrived ++ [x])) by (rewrite in_app_iff; simpl; auto).
+  assert (Cg : counts r g x = true) by (unfold counts; fold g; rewrite String.eqb_refl; apply orb_true_r).
+  destruct (cnt_facts g Cg) as (Ltg & Pg & Lg').
+  (* keys other than r and g are unrelated to g *)
+  assert (Skip : forall k, In k ts -> k <> r ->
+            k = g \/ (is_parent_tag_s k g = false /\ is_parent_tag_s g k = false)).
+  { intros k Hk0 Hkr. destruct (String.eqb_spec k g); auto. right.
+    pose proof Hk0 as Hk. apply Mt in Hk. apply in_map_iff in Hk. destruct Hk as (y & Ey & Hy).
+    destruct (sod _ y W0' Hy) as [[Py _]|[_ Ty]]; [|congruence].
+    assert (Iy : In y (arrived ++ [x])) by (rewrite in_app_iff; auto).
+    rewrite <- Ey. split; [apply (Hun y x)|apply (Hun x y)]; auto; fold g; congruence. }
+  assert (Same : forall k, k <> g -> counts r k x = false).
+  { intros k Hk. unfold counts. fold g. destruct (String.eqb_spec g r); [congruence|].
+    destruct (String.eqb_spec g k); [congruence|]. reflexivity. }
+  unfold add_to_list. change (elem_tag e) with g.
+  unfold stA. fold L ts. rewrite mk_keys.
+  set (G := fun k => rep (L k) (CS k)).
+  (* the pv of key g after the copy of the parents *)
+  set (csg := if existsb (String.eqb g) ts then bump (map fst (L r)) (L g) (CS g) else repeat 1 (length (L r))).
+  assert (NDg : NoDup (map fst (L g))) by (apply (ports_nodup g _ W0')).
+  assert (NDr : NoDup (map fst (L r))) by (apply (ports_nodup r _ W0')).
+  assert (Sub : forall y, In y (L r) -> In y (L g)).
+  { intros y Hy. unfold L, Lk, bsel in *. apply filter_In in Hy. destruct Hy as [Hy Cy]. apply filter_In. split; auto.
+    unfold counts in *. rewrite orb_diag in Cy. now rewrite Cy. }
+  (* when g is not yet a key, the tokens counting for g are the parents *)
+  assert (Lg_new : ~ In g ts -> L g = L r).
+  { intros Ng. unfold L, Lk, bsel. apply filter_ext_in. intros y Hy. unfold counts.
+    destruct (String.eqb_spec (gatag y) g) as [E|E].
+    - exfalso. apply Ng, Mt. rewrite <- E. now apply in_map.
+    - now rewrite orb_false_r, orb_diag. }
+  assert (Prop1 : propagate dot_add ts g e (fst x) (mk G ts) =
+                  inl (if existsb (String.eqb r) ts
+                       then mk (upd G g (rep (if existsb (String.eqb g) ts then L g else L r) csg)) (add_tag g ts)
+                       else mk G ts)).
+  { destruct (existsb (String.eqb r) ts) eqn:Er.
+    - apply existsb_eqb_in in Er. destruct (in_split _ _ Er) as (pre & post & Ets).
+      assert (Npre : ~ In r pre) by (rewrite Ets in NDt; apply NoDup_remove_2 in NDt; rewrite in_app_iff in NDt; tauto).
+      assert (Npost : ~ In r post) by (rewrite Ets in NDt; apply NoDup_remove_2 in NDt; rewrite in_app_iff in NDt; tauto).
+      rewrite Ets at 1. rewrite propagate_skip_prefix.
+      2:{ intros k Hk. apply Skip; [rewrite Ets, in_app_iff; auto|intros ->; tauto]. }
+      simpl. destruct (String.eqb_spec g r); [congruence|]. rewrite Gnot, Gpar.
+      rewrite lookup_mk by exact Er.
+      assert (Gr : G r = gones (L r)) by (unfold G; rewrite (I4 Er); apply rep_ones).
+      rewrite Gr.
+      assert (Lne : L r <> []) by (apply bsel_nonempty; exact Er).
+      assert (forallb (fun pd : string * list elem => match snd pd with [] => true | _ :: _ => false end) (gones (L r)) = false) as ->.
+      { destruct (L r) as [|y m]; [congruence|]. reflexivity. }
+      assert (Cur : match lookup g (mk G ts) with Some pv => pv | None => [] end = rep (L g) (CS g)).
+      { destruct (in_dec string_dec g ts) as [i|ni].
+        - now rewrite lookup_mk.
+        - rewrite lookup_notin by now rewrite mk_keys. now rewrite (I0 g ni), rep_nil_r. }
+      rewrite Cur.
+      assert (Copy : copy_ports dot_add (gones (L r)) (rep (L g) (CS g)) =
+                     inl (rep (if existsb (String.eqb g) ts then L g else L r) csg)).
+      { unfold csg. destruct (existsb (String.eqb g) ts) eqn:Eg.
+        - apply existsb_eqb_in in Eg. apply copy_bump; auto.
+        - assert (Ng : ~ In g ts) by (rewrite <- existsb_eqb_in; congruence).
+          rewrite (I0 g Ng), rep_nil_r. change (@nil (string * list elem)) with (gones []).
+          rewrite copy_ones by (simpl; exact NDr). simpl. now rewrite rep_ones. }
+      rewrite Copy. rewrite assoc_set_mk_any by exact NDt.
+      apply propagate_skip. intros k Hk. apply Skip; [rewrite Ets, in_app_iff; simpl; auto|intros ->; tauto].
+    - apply propagate_skip. intros k Hk. apply Skip; auto. intros ->.
+      apply existsb_eqb_in in Hk. congruence. }
+  rewrite Prop1.
+  assert (Ets' : ts' = add_tag g ts) by (unfold ts'; now rewrite gtags_snoc).
+  assert (NDt' : NoDup (add_tag g ts)) by (rewrite <- Ets'; apply gtags_spec).
+  assert (Hg' : In g (add_tag g ts)).
+  { unfold add_tag. destruct (existsb (String.eqb g) ts) eqn:E; [now apply existsb_eqb_in|].
+    rewrite in_app_iff. simpl. auto. }
+  (* the state of key g just before the final _add_to_port, whether or not r is a key *)
+  assert (Lsel : (if existsb (String.eqb g) ts then L g else L r) = L g).
+  { destruct (existsb (String.eqb g) ts) eqn:E; auto. symmetry. apply Lg_new. rewrite <- existsb_eqb_in. congruence. }
+  assert (Lcsg : length csg = length (L g)).
+  { unfold csg. destruct (existsb (String.eqb g) ts) eqn:E.
+    - apply bump_length. apply I1. now apply existsb_eqb_in.
+    - rewrite repeat_length. f_equal. symmetry. apply Lg_new. rewrite <- existsb_eqb_in. congruence. }
+  assert (Final : forall tv1 : tvals,
+            (match lookup g tv1 with Some pv => pv | None => [] end = rep (L g) csg) ->
+            (assoc_set g (rep (L' g) (csg ++ [1])) tv1 = mk (fun k => rep (L' k) (CS1 k)) ts') ->
+            match dot_add e (fst x) (match lookup g tv1 with Some pv => pv | None => [] end) with
+            | inl pv' => inl (assoc_set g pv' tv1) | inr er => inr er end =
+            @inl tvals cerr (mk (fun k => rep (L' k) (CS1 k)) ts')).
+  { intros tv1 E1 E2. rewrite E1. unfold dot_add. fold (addp e (fst x) (rep (L g) csg)). unfold e.
+    rewrite addp_new by auto. rewrite <- E2, Lg'. reflexivity. }
+  assert (CS1g : CS1 g = csg ++ [1]) by (unfold CS1; now rewrite Cg, Dx).
+  assert (CS1o : forall k, k <> g -> rep (L' k) (CS1 k) = G k).
+  { intros k Hk. unfold CS1, G. rewrite (Same k Hk). now rewrite (nocnt k (Same k Hk)). }
+  destruct (existsb (String.eqb r) ts) eqn:Er.
+  - apply Final.
+    + rewrite lookup_mk by exact Hg'. unfold upd. now rewrite String.eqb_refl, Lsel.
+    + rewrite assoc_set_mk by auto. rewrite Ets'. apply mk_ext. intros k Hk. unfold upd.
+      destruct (String.eqb_spec k g); [subst k; now rewrite CS1g|]. now rewrite CS1o.
+  - assert (Nr : ~ In r ts) by (rewrite <- existsb_eqb_in; congruence).
+    assert (Lr : L r = []) by (unfold L, Lk; now apply bsel_absent).
+    assert (Ecs : rep (L g) csg = rep (L g) (CS g)).
+    { unfold csg. destruct (existsb (String.eqb g) ts) eqn:Eg.
+      - rewrite Lr. simpl. rewrite bump_nil; auto. apply I1. now apply existsb_eqb_in.
+      - rewrite Lr. simpl. assert (Ng : ~ In g ts) by (rewrite <- existsb_eqb_in; congruence).
+        now rewrite (I0 g Ng), !rep_nil_r. }
+    apply Final.
+    + rewrite Ecs. destruct (in_dec string_dec g ts) as [i|ni].
+      * now rewrite lookup_mk.
+      * rewrite lookup_notin by now rewrite mk_keys. now rewrite (I0 g ni), rep_nil_r.
+    + rewrite assoc_set_mk_any by exact NDt. rewrite Ets'. apply mk_ext. intros k Hk. unfold upd.
+      destruct (String.eqb_spec k g); [subst k; now rewrite CS1g|]. now rewrite CS1o.
+Qed.
+
+(* ---------- facts about the counts after the add ---------- *)
+Lemma key_new k : In k ts' -> ~ In k ts -> k = gatag x.
+Proof.
+  unfold ts'. rewrite gtags_snoc. fold ts. unfold add_tag. intros Hk Nk.
+  destruct (existsb (String.eqb (gatag x)) ts); [tauto|]. apply in_app_iff in Hk. destruct Hk as [?|[<-|[]]]; tauto.
+Qed.
+
+Lemma mid_facts k : In k ts' ->
+  length (CS1 k) = length (L' k) /\
+  (~ In 0 (CS1 k) -> Forall (fun c => 1 <= c) (CS1 k) /\ deep1 (L' k) (CS1 k)) /\
+  haszero (CS1 k) = Nat.eqb (length (L k)) n.
+Proof.
+  intros Hk. pose proof HI as (I0 & I1 & I2 & I3 & I4).
+  assert (Ix : In x (arrived ++ [x])) by (rewrite in_app_iff; simpl; auto).
+  destruct (gtags_spec arrived) as [NDt Mt]. fold ts in NDt, Mt.
+  unfold CS1. destruct (counts r k x) eqn:C.
+  - destruct (cnt_facts k C) as (Lt & Pk & Lk').
+    assert (Z2 : Nat.eqb (length (L k)) n = false).
+    { destruct (Nat.eqb_spec (length (L k)) n); auto. rewrite e in Lt. exfalso. exact (Nat.lt_irrefl _ Lt). }
+    (* the list of counts before the final 1, with its properties *)
+    assert (Core : exists cs0, (if isdeep x
+               then (if existsb (String.eqb k) ts then bump (map fst (L r)) (L k) (CS k) else repeat 1 (length (L r)))
+               else CS k) = cs0 /\ length cs0 = length (L k) /\ Forall (fun c => 1 <= c) cs0 /\ deep1 (L k) cs0).
+    { destruct (in_dec string_dec k ts) as [i|ni].
+      - pose proof (no0_counts k i C) as N0. destruct (I3 k i N0) as [Fa D1]. pose proof (I1 k i) as Len.
+        apply existsb_eqb_in in i. rewrite i. destruct (isdeep x) eqn:Dx.
+        + eexists. split; [reflexivity|]. split; [now apply bump_length|]. split; [now apply Forall_bump|].
+          apply deep1_bump; auto. intros y Hy Hq. apply in_map_iff in Hq. destruct Hq as (z & Ez & Hz).
+          rewrite (isdeep_port y z (eq_sym Ez)). apply (parent_not_deep arrived z W0' Hz).
+        + eexists. split; [reflexivity|]. auto.
+      - assert (Eb : existsb (String.eqb k) ts = false).
+        { destruct (existsb (String.eqb k) ts) eqn:E; auto. apply existsb_eqb_in in E. tauto. }
+        rewrite Eb. pose proof (key_new k Hk ni) as Ek. destruct (isdeep x) eqn:Dx.
+        + (* new deep key: its relevant tokens so far are the parents *)
+          assert (ELk : L k = L r).
+          { unfold L, Lk, bsel. apply filter_ext_in. intros y Hy. unfold counts.
+            destruct (String.eqb_spec (gatag y) k) as [E|E].
+            - exfalso. apply ni, Mt. rewrite <- E. now apply in_map.
+            - now rewrite orb_false_r, orb_diag. }
+          eexists. split; [reflexivity|]. rewrite ELk, repeat_length. split; auto. split.
+          * apply Forall_forall. intros c Hc. apply repeat_spec in Hc. lia.
+          * apply deep1_ones.
+        + (* new parent key: k = r and nothing has arrived for it *)
+          destruct (sod _ x W Ix) as [[Dx' _]|[_ Tx]]; [congruence|].
+          assert (Nr : ~ In r ts) by (rewrite <- Tx, <- Ek; exact ni).
+          assert (E : L k = []) by (rewrite Ek, Tx; unfold L, Lk; now apply bsel_absent).
+          exists []. rewrite (I0 k ni), E. simpl. auto. }
+    destruct Core as (cs0 & -> & Len0 & Fa0 & D0).
+    rewrite Lk'. split; [|split].
+    + rewrite !app_length. simpl. lia.
+    + intros _. split.
+      * apply Forall_app. split; auto.
+      * apply deep1_snoc; auto.
+    + rewrite Z2. destruct (haszero (cs0 ++ [1])) eqn:Hz; auto. apply haszero_in in Hz.
+      apply in_app_iff in Hz. destruct Hz as [Hz|[Hz|[]]]; [|discriminate].
+      exfalso. apply (Forall_ge1_no0 _ Fa0 Hz).
+  - assert (i : In k ts).
+    { destruct (in_dec string_dec k ts) as [i|ni]; auto. exfalso. pose proof (key_new k Hk ni) as Ek.
+      unfold counts in C. rewrite Ek, String.eqb_refl, orb_true_r in C. discriminate. }
+    rewrite (nocnt k C). split; [apply I1; auto|]. split; [apply I3; auto|].
+    destruct (Nat.eqb_spec (length (L k)) n) as [E|E].
+    + apply haszero_in. apply I2; auto.
+    + destruct (haszero (CS k)) eqn:Hz; auto. apply haszero_in in Hz. apply I2 in Hz; auto. contradiction.
+Qed.
+
+(* the counts after the whole step *)
+Definition CS2 (k : string) : list nat :=
+  if existsb (String.eqb k) ts' then after n L' CS1 ts' k else [].
+
+Lemma step2 p t :
+  combine1 KDot items (fst x) (snd x) p t (stA arrived CS) =
+  (stA (arrived ++ [x]) CS2, emission_b items r arrived x, None) /\ Inv (arrived ++ [x]) CS2.
+Proof.
+  assert (Ix : In x (arrived ++ [x])) by (rewrite in_app_iff; simpl; auto).
+  destruct (gtags_spec (arrived ++ [x])) as [NDt' Mt']. fold ts' in NDt', Mt'.
+  assert (ScanH : forall k, In k ts' -> length (CS1 k) = length (L' k) /\
+            (fires2 n L' CS1 k = true -> Forall (fun c => 1 <= c) (CS1 k) /\ In 1 (CS1 k))).
+  { intros k Hk. destruct (mid_facts k Hk) as (M1 & M3 & M2). split; auto.
+    unfold fires2. intros F. apply andb_true_iff in F. destruct F as [Fc Fz]. apply Nat.eqb_eq in Fc.
+    assert (N0 : ~ In 0 (CS1 k)) by (intros H0; apply haszero_in in H0; rewrite H0 in Fz; discriminate).
+    destruct (M3 N0) as [Fa D1]. split; auto.
+    destruct (complete_has_deep k _ W Fc) as (y & Hy & Dy). eapply deep1_in1; eauto. }
+  split.
+  - unfold combine1.
+    assert (Mid : add_to_list dot_add 0 true (snd x) (fst x) (stA arrived CS) = inl (stv ts' L' CS1)).
+    { destruct (sod _ x W Ix) as [[Dx Gx]|[Dx Tx]]; [now apply mid_deep|now apply mid_parent]. }
+    rewrite Mid. unfold dot_product. unfold stv at 1. rewrite mk_keys. fold (stv ts' L' CS1). fold n.
+    rewrite (scan2 n ts' L' NDt' ts' CS1 NDt' (fun q Hq => Hq) ScanH).
+    f_equal. f_equal.
+    + unfold stv, stA. fold ts'. apply mk_ext. intros k Hk. unfold CS2. apply existsb_eqb_in in Hk. now rewrite Hk.
+    + unfold emission_b. fold ts'. apply flat_map_ext_in'. intros k Hk.
+      destruct (mid_facts k Hk) as (_ & _ & M2). unfold fires2, fires, fired_of. rewrite M2.
+      fold n. unfold L', L, Lk. now rewrite andb_comm.
+  - (* the invariant *)
+    assert (CS2k : forall k, In k ts' -> CS2 k = if fires2 n L' CS1 k then map pred (CS1 k) else CS1 k).
+    { intros k Hk. unfold CS2, after. apply existsb_eqb_in in Hk. now rewrite Hk. }
+    split; [|split; [|split; [|split]]].
+    + intros k Nk. unfold CS2. destruct (existsb (String.eqb k) ts') eqn:E; auto. apply existsb_eqb_in in E. tauto.
+    + intros k Hk. rewrite (CS2k k Hk). destruct (ScanH k Hk) as [M1 _]. fold (L' k).
+      destruct (fires2 n L' CS1 k); [now rewrite map_length|auto].
+    + intros k Hk. rewrite (CS2k k Hk). fold (L' k). destruct (mid_facts k Hk) as (M1 & M3 & M2).
+      destruct (fires2 n L' CS1 k) eqn:F.
+      * destruct (ScanH k Hk) as [_ S2]. destruct (S2 F) as [_ I1']. unfold fires2 in F.
+        apply andb_true_iff in F. destruct F as [Fc _]. apply Nat.eqb_eq in Fc. split; auto.
+        intros _. now apply in0_pred.
+      * split.
+        -- intros H0. apply haszero_in in H0. rewrite M2 in H0. apply Nat.eqb_eq in H0.
+           destruct (counts r k x) eqn:C.
+           ++ destruct (cnt_facts k C) as (Lt & _). rewrite H0 in Lt. exfalso. exact (Nat.lt_irrefl _ Lt).
+           ++ now rewrite (nocnt k C).
+        -- intros Ec. unfold fires2 in F. rewrite Ec, Nat.eqb_refl in F. simpl in F.
+           apply haszero_in. destruct (haszero (CS1 k)); auto.
+    + intros k Hk N0. rewrite (CS2k k Hk) in *. fold (L' k). destruct (mid_facts k Hk) as (M1 & M3 & M2).
+      destruct (fires2 n L' CS1 k) eqn:F; [|auto].
+      exfalso. apply N0. destruct (ScanH k Hk) as [_ S2]. destruct (S2 F) as [_ I1']. now apply in0_pred.
+    + intros Hr. rewrite (CS2k r Hr). fold (L' r).
+      assert (Fr : fires2 n L' CS1 r = false).
+      { unfold fires2. pose proof (r_lt _ W) as Lt.
+        assert (Ne : length (L' r) <> n).
+        { unfold L', Lk. intros E. apply (Nat.lt_irrefl n). rewrite <- E at 1. exact Lt. }
+        apply Nat.eqb_neq in Ne. now rewrite Ne. }
+      rewrite Fr. pose proof HI as (I0 & _ & _ & _ & I4). unfold CS1.
+      destruct (counts r r x) eqn:C.
+      * destruct (cnt_facts r C) as (_ & _ & Lk'). rewrite Lk', app_length. simpl.
+        unfold counts in C. rewrite orb_diag in C. apply String.eqb_eq in C.
+        destruct (sod _ x W Ix) as [[_ (Ne & _)]|[Dx _]]; [congruence|]. rewrite Dx.
+        destruct (in_dec string_dec r ts) as [i|ni].
+        -- rewrite (I4 i). fold (L r). rewrite Nat.add_1_r. simpl. now rewrite repeat_cons.
+        -- rewrite (I0 r ni). assert (E : L r = []) by (unfold L, Lk; now apply bsel_absent). rewrite E. reflexivity.
+      * rewrite (nocnt r C). apply I4. destruct (in_dec string_dec r ts) as [i|ni]; auto.
+        exfalso. pose proof (key_new r Hr ni) as Ek. unfold counts in C. rewrite <- Ek, String.eqb_refl in C. discriminate.
+Qed.
+End Step2.
+
+(* ---------- the run ---------- *)
+Definition tokarr (a : arv) : garv := (fst a, ETok (snd a)).
+Fixpoint outs_b2 (arrived : list garv) (rest : list arv) : list (list schema) :=
+  match rest with
+  | [] => []
+  | a :: rest' => emission_b items r arrived (tokarr a) :: outs_b2 (arrived ++ [tokarr a]) rest'
+  end.
+
+Lemma combine_tree_unfold k p t tv :
+  In p items ->
+  combine (mkouter k (map IPort items)) (mkst tv []) p t =
+  (let '(a, b, c) := combine1 k items p (ETok t) p t tv in (mkst a [], b, c)).
+Proof.
+  intros Hp. unfold combine. simpl oitems. rewrite find_inner_ports, names_items.
+  assert (existsb (String.eqb p) items = true) as ->.
+  { apply existsb_exists. exists p. split; auto. apply String.eqb_refl. }
+  reflexivity.
+Qed.
+
+Lemma run_b2 : forall rest arrived CS,
+  wfb2 (arrived ++ map tokarr rest) -> Inv arrived CS ->
+  run (c1 items) (mkst (stA arrived CS) []) rest = (outs_b2 arrived rest, None).
+Proof.
+  induction rest as [|a rest IH]; intros arrived CS W HI; simpl; auto.
+  simpl in W. replace (arrived ++ tokarr a :: map tokarr rest) with ((arrived ++ [tokarr a]) ++ map tokarr rest) in W
+    by now rewrite <- app_assoc.
+  pose proof (wfb2_prefix _ _ W) as W1.
+  destruct (step2 arrived (tokarr a) CS W1 HI (fst a) (snd a)) as [C I'].
+  destruct a as [p t]. unfold c1. rewrite combine_tree_unfold.
+  - unfold tokarr in C. cbn [fst snd] in C. rewrite C. fold (c1 items). unfold tokarr in IH.
+    pose proof (IH _ _ W I') as R. unfold tokarr in R. cbn [fst snd] in R. rewrite R. reflexivity.
+  - destruct W1 as (_ & _ & _ & Hp & _). apply (Hp (tokarr (p, t))). rewrite in_app_iff. simpl. auto.
+Qed.
+
+Lemma Inv_nil : Inv [] (fun _ => []).
+Proof. unfold Inv. simpl. repeat split; auto; tauto. Qed.
+
+(* broadcast with several scattered ports: for every arrival order of well-formed streams the run never raises and
+   emits, for every key, exactly one combination -- at the arrival that completes {tokens tagged k} U {tokens tagged
+   r}, one per port -- made of exactly those tokens *)
+Theorem dot_broadcast2 (arr : list arv) :
+  wfb2 (map tokarr arr) -> run (c1 items) init_state arr = (outs_b2 [] arr, None).
+Proof. intros W. apply (run_b2 arr [] (fun _ => [])); auto. apply Inv_nil. Qed.
+End B2.
